@@ -231,6 +231,10 @@ class Server:
                 iface, err = failed.popitem()
                 self.log.error('interface %s failed with %r', iface, err)
 
+            # the discovery responder of this run announces interfaces which are gone now
+            discovery, self.discovery = self.discovery, None
+            if discovery:
+                discovery.shutdown()
             self.log.info('stopped listening, cleaning up %d modules',
                           len(self.secnode.modules))
             if systemd:
